@@ -234,8 +234,8 @@ theorem adlEvStep_inv (st : AdlSess × Nat) (e : AdlEv) (h : AdlInv st) : AdlInv
       have h2 : b < st.2 + 1 := by omega
       simp [h1, h2, this]
     · by_cases h3 : st.2 = b
-      · have h2 : b < st.2 + 1 := by omega
-        simp [h1, h2, h3]
+      · subst h3
+        simp
       · have h2 : ¬ b < st.2 + 1 := by omega
         simp [h1, h2, h3]
   | expire =>
@@ -263,7 +263,7 @@ theorem adlInv_init : AdlInv ({}, 0) := by
 
 theorem removeKey_keys_sub (l : List XmitEnt) (k x : Nat) (h : x ∈ (removeKey l k).map (·.key)) : x ∈ l.map (·.key) := by
   induction l with
-  | nil => simpa [removeKey] using h
+  | nil => simp [removeKey] at h
   | cons e rest ih =>
     by_cases hk : e.key = k
     · simp only [removeKey, if_pos hk] at h
